@@ -520,3 +520,61 @@ func verifC09Values(maxN int) {
 
 func VerifHarness_C09_Values_2() { verifC09Values(2) }
 func VerifHarness_C09_Values_3() { verifC09Values(3) }
+
+// C11-O3b: topk / bottomk over a group that contains NaN (x/0 of C12 produces
+// it).  Wherever NaN is ranked, the numbers among the returned series must be
+// the largest (smallest) numbers of the group: no dropped number beats a
+// returned one.
+func verifC11TopKNaN(S int) {
+	pool := []float64{math.NaN(), 1, 2, 3}
+	var vs []float64
+	var samples []Sample
+	for i := 0; i < S; i++ {
+		v := pool[vsymChoice("value", len(pool))]
+		vs = append(vs, v)
+		samples = append(samples, Sample{Data: v, Set: &verifSeries{key: 7, name: "s" + strconv.Itoa(i)}})
+	}
+	top := vsymBool("topk")
+	k := 1 + vsymChoice("k", 2)
+	expr := &logql.VectorAggregationExpr{Op: logql.VectorOpBottomk, Parameter: &k}
+	if top {
+		expr.Op = logql.VectorOpTopk
+	}
+	it, err := VectorAggregation(iterators.Slice([]Step{{Timestamp: 9, Samples: samples}}), expr)
+	vsymAssert(err == nil, "topk builds")
+	var st Step
+	vsymAssert(it.Next(&st), "one step out")
+	picked := make([]bool, S)
+	for _, o := range st.Samples {
+		name := o.Set.AsLokiAPI()["series"]
+		for i := 0; i < S; i++ {
+			if name == "s"+strconv.Itoa(i) {
+				vsymAssert(!picked[i], "no input series is returned twice")
+				picked[i] = true
+			}
+		}
+	}
+	want := k
+	if S < k {
+		want = S
+	}
+	vsymAssert(len(st.Samples) == want, "topk/bottomk return min(k, group size) series")
+	for i := 0; i < S; i++ {
+		for j := 0; j < S; j++ {
+			if picked[i] && !picked[j] && vs[i] == vs[i] && vs[j] == vs[j] {
+				beaten := vs[j] > vs[i]
+				if !top {
+					beaten = vs[j] < vs[i]
+				}
+				if beaten {
+					vsymFinding("F45", true, "topk/bottomk return the wrong series when the group contains NaN: a NaN that enters the heap sits at its root and is never evicted (every comparison of a number against it is false), so all later series are rejected whatever their values")
+					return
+				}
+			}
+		}
+	}
+	vsymReach("C11_topk_nan")
+}
+
+func VerifHarness_C11_TopKNaN_3() { verifC11TopKNaN(3) }
+func VerifHarness_C11_TopKNaN_4() { verifC11TopKNaN(4) }
